@@ -330,7 +330,7 @@ def process (sc : ScJ) (obs : ObsJ) : Except String Verdict := do
   let kind ← match sc.kind with
     | "canceled" => pure CtxKind.canceled | "deadline" => pure CtxKind.deadline
     -- a context cancelled with a custom cause, or cancelled by hand long before a far deadline, reports context.Canceled
-    | "cause" => pure CtxKind.canceled | "fardeadline" => pure CtxKind.canceled | "child" => pure CtxKind.canceled
+    | "cause" => pure CtxKind.canceled | "fardeadline" => pure CtxKind.canceled | "child" => pure CtxKind.canceled | "neardeadline" => pure CtxKind.deadline
     | k => throw s!"bad kind {k}"
   let ctx0 ← match sc.ctx0 with
     | "live" => pure Ctx.live | "done" => pure (Ctx.done kind) | k => throw s!"bad ctx0 {k}"
